@@ -16,6 +16,10 @@ use std::{
 
 pub fn autoplay(millis: u64) {
     let mut game = Game::default();
+    #[cfg(daniel729_chess_verif)]
+    if let Some(verif_game) = std::env::var("VERIF_AUTO_FEN").ok().and_then(|fen| Game::new(&fen).ok()) {
+        game = verif_game;
+    }
     let mut cache: TranspositionTable =
         HashMap::with_capacity_and_hasher(TT_CAPACITY, BuildNoHashHasher::default());
 
